@@ -209,6 +209,9 @@ def cwops(ws):
 def cfop(op):
     if op[0] == "wrap":
         _, sd, wops, ds, rec = op
+        if rec == "mixed":
+            ds = [d[1] for d in ds]
+            rec = "dict"
         return "FWrap %s %s %s" % (csrc(sd, rec), cwops(wops), clist(clist(cvalue(v) for v in d) for d in ds))
     if op[0] == "feq":
         _, sd1, w1, sd2, w2, rec = op
